@@ -53,12 +53,20 @@ ParsePairsOf(ps, t, kind) ==
   [i \in 1..Len(ps) |-> << ps[i][1], ParseT(ps[i][2], AutoChild(t, kind, ps[i][1])) >>]
 
 (* _parse_properties *)
+(* a dict comprehension keyed by the Python name: when two JSON names map to one Python name *)
+(* the key keeps the position of the FIRST and the value of the LAST declaration (every      *)
+(* declaration is parsed all the same)                                                       *)
 ParseProps(S, t) ==
   LET req == IF Has(S, "required") THEN SeqRange(S.required) ELSE {}
-  IN [i \in 1..Len(S.properties) |->
-        [attr |-> AttrName(S.properties[i][1]), source |-> S.properties[i][1],
-         required |-> S.properties[i][1] \in req,
-         elem |-> ParseT(S.properties[i][2], AutoChild(t, "properties", S.properties[i][1]))]]
+      all == [i \in 1..Len(S.properties) |->
+                [attr |-> AttrName(S.properties[i][1]), source |-> S.properties[i][1],
+                 required |-> S.properties[i][1] \in req,
+                 elem |-> ParseT(S.properties[i][2], AutoChild(t, "properties", S.properties[i][1]))]]
+      isFirst(i) == \A j \in 1..(i - 1) : all[j].attr # all[i].attr
+      last(i) == CHOOSE j \in i..Len(all) : all[j].attr = all[i].attr
+                                             /\ \A k \in (j + 1)..Len(all) : all[k].attr # all[i].attr
+      firsts == SelectSeq([i \in 1..Len(all) |-> i], isFirst)
+  IN [k \in 1..Len(firsts) |-> all[last(firsts[k])]]
 
 (* the schema dict after parse_element has rewritten it in place, as kw record *)
 SimpleKws == {"default", "const", "enum", "minimum", "maximum", "exclusiveMinimum",
